@@ -285,6 +285,13 @@ def recursion_cases():
             b"stage MK(\n    out NODE n,\n    src py \"m\",\n)\n\nstage USE(\n    in  TREE t,\n    src py \"u\",\n)\n\n"
             b"pipeline P(\n)\n{\n    call MK(\n    )\n\n    call USE(\n        t = MK.n,\n    )\n\n    return (\n    )\n}\n\ncall P(\n)\n")
         out.append(case("rec:struct2_" + cid, "callgraph", src2))
+    # a pipeline mapped over a typed map of structs; inside, a call mapped over a typed-map member
+    # of the element (on the way the type of `ws.xs` would be a map of maps, which is no type)
+    out.append(case("rec:map_of_structs_with_map_member", "callgraph",
+                    b"struct W(\n    map<int> xs,\n)\n\n" + STAGE.replace(b"int x", b"int v") +
+                    b"pipeline INNER(\n    in  W w,\n    out map<int> ys,\n)\n{\n    map call S(\n        v = split self.w.xs,\n    )\n\n    return (\n        ys = S.y,\n    )\n}\n\n"
+                    b"pipeline TOP(\n    in  map<W> ws,\n)\n{\n    map call INNER(\n        w = split self.ws,\n    )\n\n    return (\n    )\n}\n\n"
+                    b"call TOP(\n    ws = {\"a\": {xs: {\"p\": 1}}, \"b\": {xs: {\"q\": 2, \"r\": 3}}},\n)\n"))
     return out
 
 
